@@ -191,6 +191,13 @@ func genC20(r *rng, n int, tier string, emit func(string, ...string)) {
 				break
 			}
 		}
+		// an original whose WARC-Type is not written in lower case (the type then comes from the header)
+		if (c.rt0 == 2 || c.rt0 == 8) && sub.chance(1, 8) {
+			name := map[int]string{2: "response", 8: "request"}[c.rt0]
+			c.rt0 = 0
+			c.hdr = append([][2]string{{"WARC-Type", pick(sub, []string{strings.ToUpper(name), strings.ToUpper(name[:1]) + name[1:], name[:3] + strings.ToUpper(name[3:])})}}, c.hdr...)
+			stat("revisit-type-case", "mixed")
+		}
 		o := genRopts(sub)
 		if sub.chance(2, 3) {
 			o.skip = false
